@@ -16,7 +16,10 @@ type Value interface{}
 // Scalar values are *Term directly.
 
 type SliceV struct{ Arr, Off, Len, Cap *Term }
-type IfaceV struct{ Tag, Box *Term }
+type IfaceV struct {
+	Tag, Box *Term
+	Ptr      *PtrV // boxed pointer that has no storable reference (points to a local)
+}
 type StructV struct{ F []Value }
 type ArrayV struct {
 	A     *Term   // Array Int τ when elements are scalar
